@@ -8,6 +8,7 @@ import glob
 import hashlib
 import importlib
 import json
+import re
 import os
 import subprocess
 import sys
@@ -50,6 +51,21 @@ def replay_file(mod, path, quiet=False):
     return None, ""
 
 
+def replay_safely(prop, path):
+    """replay in a child process: a crash of the interpreter inside the code under test is a verdict, not the end of the runner"""
+    cmd = [sys.executable, "-m", "vlib.runner", prop, "--replay", path, "--inproc"]
+    p = subprocess.run(cmd, cwd=ROOT, stdout=subprocess.PIPE, stderr=subprocess.STDOUT, text=True, timeout=3600)
+    if p.returncode == 0:
+        return None, ""
+    if p.returncode == 1:
+        m = re.search(r"^replay fails: kind=(\S+) detail=(.*)$", p.stdout, re.M | re.S)
+        if m:
+            return m.group(1), m.group(2).split("\nVIOLATION property=")[0]
+    if p.returncode < 0 or p.returncode in (132, 134, 136, 139):
+        return "interpreter_crash", "the Python process died (exit status %s) while replaying" % p.returncode
+    raise RuntimeError("replay process failed (rc=%s): %s" % (p.returncode, p.stdout[-1500:]))
+
+
 def run_worker(task):
     modname, unit, shard, nshards, tier, seed, out, env = task
     cmd = [sys.executable, "-m", "vlib.worker", modname, unit, str(shard), str(nshards), tier, str(seed), out]
@@ -63,6 +79,24 @@ def run_worker(task):
     if os.path.exists(out) and os.path.getsize(out):
         with open(out) as f:
             res = json.load(f)
+    elif p.returncode < 0 or p.returncode in (132, 134, 136, 139):
+        # the interpreter itself died (segmentation fault, abort) - native code reached through the code under test.
+        # Run the shard once more with a journal of the case about to be executed and report that case.
+        journal = out + ".journal"
+        env2 = dict(env, VERIF_JOURNAL=journal)
+        try:
+            p2 = subprocess.run(cmd, env=env2, cwd=ROOT, stdout=subprocess.PIPE, stderr=subprocess.STDOUT, text=True, timeout=limit)
+        except subprocess.TimeoutExpired:
+            p2 = None
+        if p2 is not None and (p2.returncode < 0 or p2.returncode in (132, 134, 136, 139)) and os.path.exists(journal):
+            with open(journal) as jf:
+                j = json.load(jf)
+            res = dict(module=modname, unit=unit, shard=shard, evaluations=0, classes={}, digests=[], samples=[], excluded={}, wall_s=0.0,
+                       failures=[dict(kind="interpreter_crash", payload=j["payload"], render=j.get("render", ""),
+                                      detail="the Python process died (exit status %s) while this case was running" % p2.returncode)])
+        else:
+            res = dict(module=modname, unit=unit, shard=shard, failures=[],
+                       error="worker died (rc=%s) and the crash did not repeat under the journal: %s" % (p.returncode, p.stdout[-3000:]))
     else:
         res = dict(module=modname, unit=unit, shard=shard, failures=[],
                    error="worker died (rc=%s): %s" % (p.returncode, p.stdout[-3000:]))
@@ -78,6 +112,7 @@ def main():
     ap.add_argument("--units")
     ap.add_argument("--jobs", type=int, default=int(os.environ.get("VERIF_JOBS", "16")))
     ap.add_argument("--no-evidence", action="store_true")
+    ap.add_argument("--inproc", action="store_true", help=argparse.SUPPRESS)
     args = ap.parse_args()
     prop = args.prop.upper()
     seed = int(os.environ.get("VERIF_SEED", "20261004") or 20261004)
@@ -93,7 +128,7 @@ def main():
         sys.exit(2)
 
     if args.replay:
-        kind, detail = replay_file(mod, args.replay)
+        kind, detail = replay_file(mod, args.replay) if args.inproc else replay_safely(prop, args.replay)
         if kind:
             print("replay fails: kind=%s detail=%s" % (kind, detail))
             print("VIOLATION property=%s replay=%s" % (prop, args.replay))
@@ -105,14 +140,19 @@ def main():
     errors = []
     known_lines = []
 
-    # ---- pinned replays: regressions of repaired defects, known findings ----
+    # ---- pinned replays: regressions of repaired defects, known findings (each in its own child process) ----
+    pinned_paths = [os.path.join(ROOT, e["replay"]) for e in load_known() if e["property"] == prop and e["replay"]]
+    pinned_paths += [p for p in sorted(glob.glob(os.path.join(ROOT, "replays", "regress", prop + "-*.json"))) if p not in pinned_paths]
+    pool = ThreadPoolExecutor(max_workers=min(8, max(1, len(pinned_paths))))
+    futures = {p: pool.submit(replay_safely, prop, p) for p in pinned_paths}
+    pinned = {p: f.result for p, f in futures.items()}
     n_regress = 0
     for e in load_known():
         if e["property"] != prop or not e["replay"]:
             continue
         path = os.path.join(ROOT, e["replay"])
         try:
-            kind, detail = replay_file(mod, path)
+            kind, detail = pinned[path]()
         except Exception as ex:  # noqa
             errors.append("replay %s: %s: %s" % (e["replay"], type(ex).__name__, ex))
             continue
@@ -130,7 +170,7 @@ def main():
         if any(e["replay"] == rel for e in load_known()):
             continue
         n_regress += 1
-        kind, detail = replay_file(mod, path)
+        kind, detail = pinned[path]()
         if kind:
             violations.append(("regress", kind, detail, rel))
 
